@@ -61,7 +61,9 @@ def gen(rng, i, tier):
             else:
                 c["limits"] = {"tp": [-40.0, G.sig(rng.uniform(20.0, 60.0))]}
     return {"spec": spec, "energy": rng.random() < 0.3, "ta": rng.choice([25.0, 25.0, 70.0]),
-            "phase_arg": rng.random() < 0.3, "history": rng.choice(_rows.HISTORIES), "hseed": rng.randrange(1 << 30),
+            "phase_arg": rng.random() < 0.3,
+            # (fixed share: rail owners first carry another rail name, or none, while the system is analysed)
+            "history": (lambda h_: "solve_then_rerail" if i % 6 == 4 else h_)(rng.choice(_rows.HISTORIES)), "hseed": rng.randrange(1 << 30),
             "tags": rng.random() < 0.2, "decoy": rng.random() < 0.3}
 
 
